@@ -100,7 +100,7 @@ TESTED_NOT_PROVED = [
     "case with default options, and the str-* oracle requires exactly one '>>' in what its_to_rsmi writes",
     "implicit_hydrogen keeps every non-hydrogen atom's total H on graphs whose hydrogens have one bond: oracle on every ih case (theorem C01_implicit_hydrogen for all well-formed graphs)",
 ]
-LEVEL_TEXT = ("Machine-checked proof (Coq, 45 theorems) over an executable model of ITSConstruction.construct/ITSGraph and its_decompose: for all well-formed "
+LEVEL_TEXT = ("Machine-checked proof (Coq, 46 theorems) over an executable model of ITSConstruction.construct/ITSGraph and its_decompose: for all well-formed "
               "reactant/product graphs on the same node set with positive bond orders, decompose(construct(G,H)) returns exactly G and H "
               "(atoms, element, aromaticity, hydrogen count, charge, atom_map = node id, every bond with its order) - for every value of "
               "ignore_aromaticity, balance_its, store and attributes_defaults; the ITS has exactly the union of the nodes and bonds, every bond "
@@ -484,6 +484,25 @@ def ih_balance(gjson, pres):
     return []
 
 
+def eh_balance(rsmi):
+    """theorem C01_h_to_explicit_balance on the implementation: rsmi_to_its(r, explicit_hydrogen=True) decomposes into graphs that
+    stand, on each side, for as many hydrogens (hydrogen atoms + hcounts) as the sides of rsmi_to_its(r)"""
+    from synkit.IO.chem_converter import rsmi_to_its
+    from synkit.Graph.ITS.its_decompose import its_decompose
+
+    def total(X):
+        return sum(1 if d["element"] == "H" else d["hcount"] for _, d in X.nodes(data=True))
+    try:
+        a, b = its_decompose(rsmi_to_its(rsmi))
+        a2, b2 = its_decompose(rsmi_to_its(rsmi, explicit_hydrogen=True))
+    except Exception:
+        return []
+    if (total(a), total(b)) != (total(a2), total(b2)):
+        return [dict(clause="eh-h-balance", detail="hydrogen atoms + hcounts (reactants, products): %r without, %r with explicit_hydrogen=True"
+                     % ((total(a), total(b)), (total(a2), total(b2))))]
+    return []
+
+
 def oracle(case):
     if case.get("kind") == "ih":
         return (ih_clauses(case["G"], case["pres"]) + ih_balance(case["G"], case["pres"]))[:3]
@@ -526,6 +545,7 @@ def oracle(case):
             if case["kind"].startswith("str-eh"):
                 for f in f2:           # one defect, one key: rsmi_to_its(explicit_hydrogen=True) (see known_findings.d/C01.json)
                     f["clause"] = "eh-" + f["clause"]
+                f2 = f2 + eh_balance(case["rsmi"])
             fails += f2
         return fails[:3]
     if balanced_pair(G, H):
